@@ -11,6 +11,7 @@
 #include "bind.hpp"
 #include <SQuIDS/SQuIDS.h>
 #include <thread>
+#include <chrono>
 #include <mutex>
 #include <condition_variable>
 #include <memory>
@@ -277,11 +278,15 @@ int main(int argc, char** argv) {
   std::vector<Scenario> scen = {{"own-vectors", 2, 2}, {"hand-over-ring", 2, 2}, {"shared-solver", 2, 2}, {"thread-exit", 2, 1}, {"thread-exit-after-hand-over", 2, 2}, {"own-solver", 2, 1}, {"library-calls", 2, 1}};
   if (th) { scen = {{"library-calls", 2, 2}, {"library-calls", 3, 1}, {"own-vectors", 2, 3}, {"own-vectors", 3, 2}, {"hand-over-ring", 2, 4}, {"hand-over-ring", 3, 3}, {"shared-solver", 2, 3}, {"shared-solver", 3, 2}, {"thread-exit", 2, 2}, {"thread-exit", 3, 1}, {"thread-exit-after-hand-over", 2, 4}, {"thread-exit-after-hand-over", 3, 2}, {"own-solver", 2, 2}, {"own-solver", 3, 1}}; }
   long sc_index = 0, total_exec = 0, total_points = 0;
+  // wall-clock budget per scenario: when it is used up the exploration stops at the end of the current execution and
+  // the evidence says so (exhaustive: false) -- a thorough run must end by itself, never by the driver's timeout
+  double deadline = (double)ar.geti("deadline", th ? 1200 : 900); auto t_start = std::chrono::steady_clock::now(); bool out_of_time = false;   // per scenario
   arena::A().hook = []() { sched::point(); };
   for (auto& sc : scen) {
     if ((sc_index++ % ar.nshards) != ar.shard) continue;
     sched::Explorer ex; ex.use_hashing = false; ex.preempt_bound = sc.bound; ex.step_cap = 2000000; ex.max_executions = (long)ar.geti("max-exec", 400000);
     g_have_ref = false; std::set<std::string> outcomes; long viol = 0;
+    t_start = std::chrono::steady_clock::now(); out_of_time = false;
     ex.setup = [&]() {
       arena::Arena& A = arena::A(); A.active = false; SU_vector::clear_mem_cache(); A.reset(); A.counting = false; A.align_mode = 2; A.active = true;
       g_out.assign(sc.n, Out());
@@ -320,10 +325,12 @@ int main(int argc, char** argv) {
       if (!g_have_ref) { g_ref = g_out; g_have_ref = true; }
       else if (!same(g_out, g_ref, true, why)) { viol++; violation("threads:" + sc.name + ":result-depends-on-schedule", ctx + ",\"why\":" + jstr(why) + "}"); }
       std::string o; for (auto& t : g_out) o += std::to_string(ref::fnv(t.data(), t.size() * 8)) + ","; outcomes.insert(o);
+      if (!out_of_time && std::chrono::duration<double>(std::chrono::steady_clock::now() - t_start).count() > deadline) { out_of_time = true; ex.max_executions = ex.executions; }
     };
     set_case(sc.name);
     // iterate the bound: 0, 1, .. so that the first counterexample has the fewest preemptions
-    for (int b = 0; b <= sc.bound; b++) { ex.preempt_bound = b; ex.executions = 0; ex.explore_all(); count(fmt("executions:%s:%dthreads:bound=%d", sc.name.c_str(), sc.n, b), ex.executions); total_exec += ex.executions; total_points += ex.points_total; ex.points_total = 0; if (ex.capped) { not_exhaustive(); info("capped", sc.name + fmt(" bound %d", b)); } }
+    for (int b = 0; b <= sc.bound && !out_of_time; b++) { ex.preempt_bound = b; ex.executions = 0; ex.explore_all(); count(fmt("executions:%s:%dthreads:bound=%d", sc.name.c_str(), sc.n, b), ex.executions); total_exec += ex.executions; total_points += ex.points_total; ex.points_total = 0; if (ex.capped) { not_exhaustive(); info("capped", sc.name + fmt(" bound %d", b)); } }
+    if (out_of_time) { not_exhaustive(); info("deadline", fmt("%.0f s used up in scenario %s (%d threads)", deadline, sc.name.c_str(), sc.n)); }
     distinct(ref::fnv(sc.name.data(), sc.name.size(), sc.n));
     sample("{\"scenario\":" + jstr(sc.name) + ",\"threads\":" + std::to_string(sc.n) + ",\"preemption_bound\":" + std::to_string(sc.bound) + ",\"executions_at_last_bound\":" + std::to_string(ex.executions) + ",\"distinct_outcomes\":" + std::to_string(outcomes.size()) + "}");
   }
